@@ -721,6 +721,8 @@ func TestVerifC18(t *testing.T) {
 		lazyX, lazyY := round%3 == 1, round%3 == 2
 		// a completed read first: whatever it leaves in the pool is what the next ones get
 		collect("read-warm", sendRead(sizes[(round+2)%len(sizes)], false, false))
+		// ... and one that ends with ZERO bytes at end of file (the last read of every read-until-EOF loop)
+		collect("read-warm-eof", sendRead(0, false, false))
 		// gated backend: X is inside ReadAt (buffer filled) while Y is received, served and answered
 		x := sendRead(nx, lazyX, true)
 		waitEntered()
